@@ -1,6 +1,7 @@
 import TdVerif.Sexp
 import TdVerif.Model.C13Module
 import TdVerif.Model.C13Params
+import TdVerif.Model.C13Inplace
 
 namespace TdVerif.Drive
 open TdVerif Sexp TdVerif.C13
@@ -136,6 +137,20 @@ def handleC13 (cmd : String) (args : List Sexp) : Option Sexp :=
   | "c13.exec_old", [hp, .list prog] => do
       let ms ← heap? hp; let prog ← prog.mapM stmt?
       pure (execAns ms.length (execOld ⟨toHeap ms, []⟩ prog))
+  | "c13.inplace", [hp, root, p] => do
+      -- to_module(inplace=True) then the swap back: values of the module's tensor objects (value of object i = i before)
+      let ms ← heap? hp; let root ← asNat? root; let p ← td? p
+      match Inplace.visit (toHeap ms) [root] root p with
+      | .error e => pure (tagged "err" [errSexp e])
+      | .ok (_, ws) =>
+        let ids := (ms.flatMap (fun md => (md.params.filterMap (·.2)) ++ (md.buffers.filterMap (·.2)) ++ md.plain.map (·.2))).map (·.id)
+        let ids := ids.eraseDups
+        let mx := (ids ++ ws.map (·.2.id)).foldl max 0
+        let s0 : Inplace.VS := ⟨fun i => i, mx + 1⟩
+        let r1 := Inplace.inplaceAll s0 ws
+        let s2 := Inplace.roundTrip s0 ws
+        let pr (s : Inplace.VS) : Sexp := .list (ids.map (fun i => .list [ofNat i, ofNat (s.vals i)]))
+        pure (tagged "ok" [pr r1.1, pr s2])
   | "c13.reset_params", leaves => do
       -- each leaf: ((path components…) p|t) ; answer: (parameter names in registry order) (buffer names)
       let ls ← leaves.mapM (fun l => match l with
